@@ -36,6 +36,8 @@ HEADER_PLAIN = "prop_autohash 1"
 # (what an unrelated earlier failure leaves behind); a call that does not
 # touch errno is reported as errno 0
 HEADER_PRESET = "prop_autohash 1 4242"
+# ... or ERANGE, which successful libm / strtod calls leave behind
+HEADER_ERANGE = "prop_autohash 1 34"
 HEADER = HEADER_PLAIN
 
 
@@ -1117,8 +1119,7 @@ def quote_chunk(chunk_id, payload):
             keys.append(k)
     # phase 1: ask the library
     s = R.Script()
-    for k in keys:
-        s.op("vnaproperty_quote_key", R.qs(k))
+    qlines = [s.op("vnaproperty_quote_key", R.qs(k)) for k in keys]
     t1 = s.text()
     res = run_cases(binary, [("q", t1)], wd, timeout=300)["q"]
     v, inc = R.standard_violations(res, t1, PROP)
@@ -1126,7 +1127,7 @@ def quote_chunk(chunk_id, payload):
     part["inconclusive"] += inc
     seqs = []
     for i, k in enumerate(keys):
-        ev = res.ev(i + 1)
+        ev = res.ev(qlines[i])
         if ev is None:
             continue
         part["evaluations"] += 1
@@ -1187,10 +1188,10 @@ def dispatch(chunk_id, payload):
           "E": quote_chunk, "Z": sized_chunk}[kind]
     t0 = time.time()
     global HEADER
-    HEADER = HEADER_PRESET if chunk_id % 2 else HEADER_PLAIN
+    HEADER = (HEADER_PLAIN, HEADER_PRESET, HEADER_ERANGE)[chunk_id % 3]
     part = fn(chunk_id, payload[1:])
     part["counters"]["chunks_errno_%s" % (
-        "preset" if chunk_id % 2 else "zero")] = 1
+        ("zero", "4242", "ERANGE")[chunk_id % 3])] = 1
     part.pop("_distinct_on", None)
     part["counters"]["cpu_s_part_%s" % kind] = round(time.time() - t0, 2)
     return part
